@@ -68,7 +68,8 @@ GenStr(c)  == IF Pick(1..2) = 1 THEN StrOp(c) ELSE [k |-> "scat", l |-> StrOp(c)
 \* (TRUE is held back until the repair of the late evaluation of a plain index lands in /repo)
 BareForms == {FALSE, TRUE}
 \* recover() in the body of a function literal held in a variable (h := func() { recover() }; defer h()):
-\* FALSE holds the form back until the repair lands in /repo
+\* FALSE: the form is a known finding (F-C06-11, witness recover-in-a-literal-deferred-through-a-variable): the
+\* repair that was written needs the identity of function values (unsafe) and is not exact across goroutines
 ClobForms == FALSE
 
 GenLeaf(c) ==
@@ -577,9 +578,9 @@ MenuF ==
     \* panic; the same literal merely called by a deferred literal does not
     \cup (IF ~ClobForms THEN {} ELSE
           { Blk(<< [k |-> "mkclo", c |-> "c1", par |-> FALSE, body |-> << Rec("direct", TRUE), [k |-> "ret", bare |-> FALSE, e |-> Lit(0)] >>],
-                   DRef("clo", "c1") >>),
-            Blk(<< [k |-> "mkclo", c |-> "c1", par |-> FALSE, body |-> << Rec("direct", FALSE), [k |-> "ret", bare |-> FALSE, e |-> Lit(0)] >>],
-                   DLit(<< [k |-> "discard", e |-> [k |-> "clo", c |-> "c1", args |-> <<>>]] >>) >>) })
+                   DRef("clo", "c1") >>) })
+    \cup { Blk(<< [k |-> "mkclo", c |-> "c1", par |-> FALSE, body |-> << Rec("direct", FALSE), [k |-> "ret", bare |-> FALSE, e |-> Lit(0)] >>],
+                   DLit(<< [k |-> "discard", e |-> [k |-> "clo", c |-> "c1", args |-> <<>>]] >>) >>) }
 
 
 HFunc == [named |-> TRUE, body |-> << [k |-> "print", id |-> 1, e |-> Var("p")], AsgS("r", Var("p")) >>]
@@ -634,6 +635,12 @@ Witnesses ==
                 cases |-> << [v |-> 5, w |-> 5, fall |-> TRUE, body |-> << AsgS("r", Lit(1)) >>],
                              [v |-> 2, w |-> 2, fall |-> FALSE, body |-> << [k |-> "ret", bare |-> TRUE, e |-> Lit(0)] >>] >>,
                 dflt |-> <<>>] >>,
+            << PrintS(CallE("f", Lit(1))), [k |-> "printg"] >>),
+      \* known finding F-C06-11 / F-C01-11: recover() in a function literal held in a variable and deferred through it
+      WProg("recover-in-a-literal-deferred-through-a-variable",
+            << Blk(<< [k |-> "mkclo", c |-> "c1", par |-> FALSE, body |-> << Rec("direct", TRUE), [k |-> "ret", bare |-> FALSE, e |-> Lit(0)] >>],
+                      DRef("clo", "c1") >>),
+               PanicS(6) >>,
             << PrintS(CallE("f", Lit(1))), [k |-> "printg"] >>),
       WProg("main-local-named-like-a-package-variable", <<>>,
             << AsgS("g0", Bin("add", Var("g0"), Lit(4))),
